@@ -347,12 +347,13 @@ def orNone : Option Str → Option Str
   | some s => if s.isEmpty then none else some s
   | none => none
 
-/-- the `OFX` instance of `request_tax1099(password, *taxyears, acctnum=…, recid=…)`;
-    `acctnum` is accepted and never used (as in the code) -/
+/-- the `OFX` instance of `request_tax1099(password, *taxyears, acctnum=…, recid=…)`:
+    `TAX1099RQ(*taxyears, acctnum=acctnum or None, recid=recid or None)` -/
 def requestTax (S : Schema) (cv : Conv) (cfg : Cfg) (password : Str) (taxyears : List Str)
-    (_acctnum recid : Option Str) (uuidStream : Nat → Str) (dtclient : DT) : PyM Node := do
+    (acctnum recid : Option Str) (uuidStream : Nat → Str) (dtclient : DT) : PyM Node := do
   let so ← signon S cv cfg password none dtclient
-  let rq ← mk S cv "TAX1099RQ" (taxyears.map sv) [kv "recid" (osv (orNone recid))]
+  let rq ← mk S cv "TAX1099RQ" (taxyears.map sv)
+    [kv "acctnum" (osv (orNone acctnum)), kv "recid" (osv (orNone recid))]
   let trn ← mk S cv "TAX1099TRNRQ" [] [kv "trnuid" (sv (uuidStream 0)), kv "tax1099rq" rq]
   let msgs ← mk S cv "TAX1099MSGSRQV1" [trn] []
   mk S cv "OFX" [] [kv "signonmsgsrqv1" so, kv "tax1099msgsrqv1" msgs]
